@@ -20,6 +20,7 @@ import (
 	"fmt"
 	"hash/fnv"
 	"io"
+	"math"
 	"net"
 	"os"
 	"strconv"
@@ -249,7 +250,11 @@ func vf12ErrClass(err error) string {
 // vf12Run is the parser loop of syncer.parseAofCommand / parseAofReplayUnits
 // reduced to its decoding part: NewDecoder once, then MustDecodeOpt +
 // ParseArgs per command, offset = startOffset + incrOffset.
-func vf12Run(data []byte, start int64, bufSize, frag int, fseed uint64) (out []vf12Dec, errClass string) {
+// preset is written into Decoder.offset before the first read (0 = the fresh
+// decoder the parsers create; large values stand for a long-lived connection
+// that has already consumed that many bytes — the int64 returned by
+// MustDecodeOpt must still be exact there).
+func vf12Run(data []byte, start, preset int64, bufSize, frag int, fseed uint64) (out []vf12Dec, errClass string) {
 	defer func() {
 		if p := recover(); p != nil {
 			errClass = "panic"
@@ -257,6 +262,9 @@ func vf12Run(data []byte, start int64, bufSize, frag int, fseed uint64) (out []v
 	}()
 	fr := &vf12FragReader{data: data, k: frag, r: vfutil.NewRand(fseed)}
 	d := NewDecoder(bufio.NewReaderSize(fr, bufSize))
+	if preset != 0 {
+		d.offset = preset
+	}
 	for {
 		resp, incr, err := MustDecodeOpt(d)
 		if err != nil {
@@ -323,6 +331,26 @@ func vf12Replay(line string) map[string]interface{} {
 // want != nil carries the generated commands (otherwise the strict oracle
 // decides whether the monitor applies).
 func (x *vf12T) stream(src string, start int64, b *vf12Buf, want [][][]byte, nconf int) {
+	x.streamP(src, start, x.preset(&start), b, want, nconf)
+}
+
+var vf12Presets = []int64{1<<31 - 3, 1<<32 - 3, 1<<53 - 3, 1 << 62}
+
+// preset picks the decoder's initial counter: mostly 0, sometimes just below
+// 2^31 / 2^32 / 2^53 or at 2^62 (start is reduced so that the sum stays an int64).
+func (x *vf12T) preset(start *int64) int64 {
+	if !x.r.Chance(1, 4) {
+		return 0
+	}
+	p := vfutil.Pick(x.r, vf12Presets)
+	if p >= 1<<53 {
+		*start %= 1 << 60
+	}
+	x.s.Count(fmt.Sprintf("decoder_offset_preset_%d", p))
+	return p
+}
+
+func (x *vf12T) streamP(src string, start, preset int64, b *vf12Buf, want [][][]byte, nconf int) {
 	s := x.s
 	data := b.data
 	pieces := b.Pieces()
@@ -352,9 +380,9 @@ func (x *vf12T) stream(src string, start int64, b *vf12Buf, want [][][]byte, nco
 			fk = 4096
 		}
 		fseed := x.r.U64() % 1000000
-		out, ec := vf12Run(data, start, bs, fk, fseed)
+		out, ec := vf12Run(data, start, preset, bs, fk, fseed)
 		lines := vf12Lines(x.idx, out, ec)
-		line := fmt.Sprintf("dec %d %d %d %d %d %s", x.idx, start, bs, fk, fseed, pieces)
+		line := fmt.Sprintf("dec %d %d %d %d %d %d %s", x.idx, start, preset, bs, fk, fseed, pieces)
 		s.Count(fmt.Sprintf("bufio_%d", bs))
 		s.Count(fmt.Sprintf("frag_%d", fk))
 		if c == 0 {
@@ -380,15 +408,15 @@ func (x *vf12T) stream(src string, start int64, b *vf12Buf, want [][][]byte, nco
 						from = sends[i-1]
 					}
 					sub := data[from:sends[i]]
-					o2, e2 := vf12Run(sub, start, bs, fk, fseed)
-					bad := e2 != "eof" || len(o2) != 1 || o2[0].off != start+int64(len(sub)) || len(o2[0].args) != len(scmds[i])-1
+					o2, e2 := vf12Run(sub, start, preset, bs, fk, fseed)
+					bad := e2 != "eof" || len(o2) != 1 || o2[0].off != start+preset+int64(len(sub)) || len(o2[0].args) != len(scmds[i])-1
 					for j := 0; !bad && j < len(o2[0].args); j++ {
 						bad = !bytes.Equal(o2[0].args[j], scmds[i][j+1])
 					}
 					if bad {
 						sb := &vf12Buf{}
 						sb.Lit(sub)
-						use = fmt.Sprintf("dec 0 %d %d %d %d %s", start, bs, fk, fseed, sb.Pieces())
+						use = fmt.Sprintf("dec 0 %d %d %d %d %d %s", start, preset, bs, fk, fseed, sb.Pieces())
 						i = 0
 					}
 				}
@@ -418,11 +446,12 @@ func (x *vf12T) stream(src string, start int64, b *vf12Buf, want [][][]byte, nco
 					m["sent_args"] = vf12Short(vf12RenderList(w[1:]))
 					s.Violate("args-not-lossless", fmt.Sprintf("cmd %d: decoded arguments differ from the bytes sent", i), m)
 				}
-				if out[i].off != start+int64(sends[i]) {
+				if out[i].off != start+preset+int64(sends[i]) {
 					m := rp(i)
 					m["got_offset"] = out[i].off
-					m["want_offset"] = start + int64(sends[i])
-					s.Violate("offset-not-bytes-consumed", fmt.Sprintf("cmd %d: offset %d, start+bytes consumed = %d", i, out[i].off, start+int64(sends[i])), m)
+					m["want_offset"] = start + preset + int64(sends[i])
+					m["decoder_offset_before"] = preset
+					s.Violate("offset-not-bytes-consumed", fmt.Sprintf("cmd %d: offset %d, start + decoder offset before (%d) + bytes consumed = %d", i, out[i].off, preset, start+preset+int64(sends[i])), m)
 				}
 			}
 		}
@@ -617,15 +646,66 @@ func (x *vf12T) wargs(args []interface{}, toks []string, payload [][]byte) {
 		}
 		s.Count("writeargs_read_by_proto_reader")
 	}
+	// float arguments (zset scores on the snapshot path): the text on the wire must
+	// be the shortest decimal that reads back as exactly the float64 passed
+	if cmds, _, ok := vf12Strict(buf.Bytes()); ok && len(cmds) == 1 && len(cmds[0]) == len(args) {
+		for i, a := range args {
+			var f float64
+			switch v := a.(type) {
+			case float64:
+				f = v
+			case float32:
+				f = float64(v)
+			default:
+				continue
+			}
+			txt := string(cmds[0][i])
+			back, err := strconv.ParseFloat(txt, 64)
+			same := err == nil && (math.Float64bits(back) == math.Float64bits(f) || (back != back && f != f))
+			if !same || txt != strconv.FormatFloat(f, 'f', -1, 64) {
+				m := vf12Replay("wa 0 " + strings.Join(toks, " "))
+				m["float_bits"] = fmt.Sprintf("%016x", math.Float64bits(f))
+				m["wire_text"] = txt
+				m["want_text"] = strconv.FormatFloat(f, 'f', -1, 64)
+				s.Violate("wa-float-text", fmt.Sprintf("float argument %v written as %q, which does not read back as the same float64", f, txt), m)
+			}
+			s.Count("writeargs_float_checked")
+		}
+	}
 	x.back("wa", buf.Bytes(), toks, payload)
 	s.Count("writeargs_cases")
+}
+
+var vf12Floats = []float64{0, 0.1, -0.1, 1, -1, 1.5, 0.30000000000000004, 1e21, 1e22, 1e-7, 5e-324, 2.2250738585072014e-308,
+	1.7976931348623157e308, 9007199254740993, 9007199254740992, 16777217, 3.4028234663852886e38, 1.0000001, 123456.789,
+	math.Inf(1), math.Inf(-1), math.Copysign(0, -1), 1700000000.123456}
+
+func (x *vf12T) genFloat() float64 {
+	r := x.r
+	switch r.Intn(4) {
+	case 0:
+		return vfutil.Pick(r, vf12Floats)
+	case 1: // any bit pattern except NaN (Redis rejects NaN scores; the text "NaN" is compared by the framing check only)
+		f := math.Float64frombits(r.U64())
+		if f != f {
+			return 0.5
+		}
+		return f
+	case 2: // timestamps / scores with fractions
+		return float64(r.Intn(2000000000)) + float64(r.Intn(1000000))/1e6
+	default: // integers around 2^53 and small ratios
+		if r.Bool() {
+			return float64(int64(1)<<53 + int64(r.Intn(9)) - 4)
+		}
+		return float64(r.Intn(1000)) / float64(1+r.Intn(1000))
+	}
 }
 
 // back: bytes written by an encoder → real decoder → op + monitor.
 func (x *vf12T) back(op string, wire []byte, toks []string, payload [][]byte) {
 	s := x.s
 	line := fmt.Sprintf("%s %d %s", op, x.idx, strings.Join(toks, " "))
-	out, ec := vf12Run(wire, 0, vfutil.Pick(x.r, vf12BufSizes), vfutil.Pick(x.r, vf12Frags[2:]), x.r.U64())
+	out, ec := vf12Run(wire, 0, 0, vfutil.Pick(x.r, vf12BufSizes), vfutil.Pick(x.r, vf12Frags[2:]), x.r.U64())
 	lines := []string{fmt.Sprintf("#%d w %s", x.idx, vf12Render(wire))}
 	if len(out) >= 1 {
 		lines = append(lines, fmt.Sprintf("#%d c %s %s @%d", x.idx, vf12Render([]byte(out[0].cmd)), vf12RenderList(out[0].args), out[0].off))
@@ -671,9 +751,21 @@ func (x *vf12T) genWriteArgs() {
 	i64s := []int64{0, 1, -1, 9, 10, -10, 1023, -1024, 1 << 31, -(1 << 31), 1<<63 - 1, -1 << 63, 1234567890123}
 	u64s := []uint64{0, 1, 9, 10, 255, 65535, 1 << 32, 1<<63 - 1, 1 << 63, 1<<64 - 1}
 	for i := 0; i < na; i++ {
-		k := r.Intn(16)
+		k := r.Intn(18)
 		x.s.Count(fmt.Sprintf("writeargs_kind_%d", k))
 		switch k {
+		case 16: // float64 (ZADD score of a skiplist zset in the snapshot replay)
+			f := x.genFloat()
+			txt := strconv.FormatFloat(f, 'f', -1, 64)
+			args = append(args, f)
+			toks = append(toks, "F:"+vfutil.HexS(txt))
+			payload = append(payload, []byte(txt))
+		case 17: // float32 is widened to float64 before formatting
+			f := float32(x.genFloat())
+			txt := strconv.FormatFloat(float64(f), 'f', -1, 64)
+			args = append(args, f)
+			toks = append(toks, "F:"+vfutil.HexS(txt))
+			payload = append(payload, []byte(txt))
 		case 0, 1, 2:
 			n := r.Intn(50)
 			if r.Chance(1, 10) {
@@ -837,10 +929,11 @@ func (x *vf12T) soup() []byte {
 // replay re-runs one recorded op line (dec / wa / en) on the real code.
 func (x *vf12T) replay(op string) bool {
 	f := strings.Fields(op)
-	if len(f) >= 6 && f[0] == "dec" {
+	if len(f) >= 7 && f[0] == "dec" {
 		st, _ := strconv.ParseInt(f[2], 10, 64)
+		pre, _ := strconv.ParseInt(f[3], 10, 64)
 		bf := &vf12Buf{}
-		for _, tk := range f[6:] {
+		for _, tk := range f[7:] {
 			q := strings.Split(tk, ":")
 			if q[0] == "h" && len(q) == 2 {
 				bf.Lit(vfutil.UnHex(q[1]))
@@ -853,13 +946,13 @@ func (x *vf12T) replay(op string) bool {
 			}
 		}
 		// the recorded configuration first, then others
-		bs, _ := strconv.Atoi(f[3])
-		fk, _ := strconv.Atoi(f[4])
-		fseed, _ := strconv.ParseUint(f[5], 10, 64)
-		out, ec := vf12Run(bf.data, st, bs, fk, fseed)
-		x.s.Op(fmt.Sprintf("dec %d %d %d %d %d %s", x.idx, st, bs, fk, fseed, bf.Pieces()), vf12Lines(x.idx, out, ec)...)
+		bs, _ := strconv.Atoi(f[4])
+		fk, _ := strconv.Atoi(f[5])
+		fseed, _ := strconv.ParseUint(f[6], 10, 64)
+		out, ec := vf12Run(bf.data, st, pre, bs, fk, fseed)
+		x.s.Op(fmt.Sprintf("dec %d %d %d %d %d %d %s", x.idx, st, pre, bs, fk, fseed, bf.Pieces()), vf12Lines(x.idx, out, ec)...)
 		x.idx++
-		x.stream("replay", st, bf, nil, 9)
+		x.streamP("replay", st, pre, bf, nil, 9)
 		return true
 	}
 	if len(f) >= 3 && (f[0] == "wa" || f[0] == "en") {
@@ -879,6 +972,10 @@ func (x *vf12T) replay(op string) bool {
 				n, _ := strconv.Atoi(q[2])
 				v := bytes.Repeat([]byte{byte(c)}, n)
 				args, argv, payload = append(args, v), append(argv, v), append(payload, v)
+			case q[0] == "F" && len(q) == 2:
+				txt := vfutil.UnHex(q[1])
+				v, _ := strconv.ParseFloat(string(txt), 64)
+				args, payload = append(args, v), append(payload, txt)
 			case q[0] == "i" && len(q) == 2:
 				v, _ := strconv.ParseInt(q[1], 10, 64)
 				args, payload = append(args, v), append(payload, []byte(q[1]))
@@ -953,7 +1050,7 @@ func TestVerifC12(t *testing.T) {
 
 	// ---- observation (outside the property's quantifier): an inline command's
 	// first byte is counted twice by the decoder
-	if out, ec := vf12Run([]byte("PING\r\n"), 0, 16, 1, 1); ec == "eof" && len(out) == 1 {
+	if out, ec := vf12Run([]byte("PING\r\n"), 0, 0, 16, 1, 1); ec == "eof" && len(out) == 1 {
 		if out[0].off == 7 {
 			s.Count("observation_inline_first_byte_counted_twice")
 		} else if out[0].off == 6 {
@@ -1098,6 +1195,11 @@ func TestVerifC12(t *testing.T) {
 		{"HSET", "cp", "runid_offset", int64(-1)},
 		{"SELECT", 0}, {"SELECT", int64(15)},
 		{"X", int64(-1 << 63), int64(1<<63 - 1), uint64(1<<64 - 1), true, false, nil, ""},
+		{"ZADD", []byte("zs"), 0.1, []byte("m1")},
+		{"ZADD", []byte("zs"), 9007199254740993.0, []byte("m2"), 1e21, []byte("m3"), 5e-324, []byte("m4"), 16777217.0, []byte("m5")},
+	}
+	for _, f := range vf12Floats { // the way ZSetParser.ExecCmd sends a score
+		fixed = append(fixed, []interface{}{"ZADD", []byte("k"), f, []byte("member")})
 	}
 	for _, a := range fixed {
 		var toks []string
@@ -1120,6 +1222,9 @@ func TestVerifC12(t *testing.T) {
 				} else {
 					toks, payload = append(toks, "f"), append(payload, []byte("0"))
 				}
+			case float64:
+				txt := strconv.FormatFloat(v, 'f', -1, 64)
+				toks, payload = append(toks, "F:"+vfutil.HexS(txt)), append(payload, []byte(txt))
 			case nil:
 				toks, payload = append(toks, "n"), append(payload, []byte{})
 			}
